@@ -497,6 +497,7 @@ impl Scenario for TxHistory {
         let restart_on = rng.chance(2, 3);
         let fork_on = rng.chance(2, 3);
         let bursts_on = rng.chance(1, 5);
+        let misuse_on = rng.chance(1, 4);
         let config = json!({"n_events": n_events, "mutators": mut_names.iter().zip(mut_w.iter()).filter(|(_, w)| **w > 0).map(|(n, _)| *n).collect::<Vec<_>>(),
             "flags": FLAGS.iter().zip(flag_w.iter()).filter(|(_, w)| **w > 0).map(|(f, _)| flag_name(*f)).collect::<Vec<_>>(), "restart": restart_on, "fork": fork_on});
 
@@ -549,6 +550,20 @@ impl Scenario for TxHistory {
                         }
                     }
                     let m = mut_names[rng.weighted(&w)];
+                    if misuse_on && rng.chance(1, 10) && matches!(m, "insert_input" | "set_input" | "insert_output" | "set_output") {
+                        let is_in = m.contains("input");
+                        let mut e = json!({"op": "misuse", "obj": o, "what": m, "over": *rng.pick(&[0u64, 0, 1, 7])});
+                        if is_in {
+                            e["txin"] = Self::gen_txin(rng, &txids, &scripts);
+                        } else {
+                            e["txout"] = Self::gen_txout(rng, &scripts);
+                        }
+                        events.push(e);
+                        if let Some((ho, s, 0)) = hot {
+                            hot = Some((ho, s, 1));
+                        }
+                        continue;
+                    }
                     if bursts_on && rng.chance(1, 6) && matches!(m, "set_input" | "set_output" | "add_inputs" | "add_outputs") {
                         if (m == "set_input" && n_in == 0) || (m == "set_output" && n_out == 0) || n_in > 1500 || n_out > 1500 {
                             continue;
@@ -833,6 +848,41 @@ impl Scenario for TxHistory {
                             }
                         }
                     }
+                    is_mutator = true;
+                }
+                "misuse" => {
+                    // a positional mutator is given an index beyond the list. Whether that panics, errs or is clamped is not C04's
+                    // business; what the object is like AFTERWARDS is: it must still answer like a fresh parse of whatever it now holds
+                    let what = jstr(ev, "what").to_string();
+                    let over = jusize(ev, "over");
+                    arg_class = what.clone();
+                    ctx.event(seq, &op, &arg_class);
+                    let (n_ins, n_outs) = (objs[o].model.ins.len(), objs[o].model.outs.len());
+                    let t = &mut objs[o].tx;
+                    let r = match what.as_str() {
+                        "insert_input" | "set_input" => match ev.get("txin").and_then(mk_txin) {
+                            Some((txin, _)) => {
+                                let idx = n_ins + over + if what == "insert_input" { 1 } else { 0 };
+                                guard(|| if what == "insert_input" { t.insert_input(idx, &txin) } else { t.set_input(idx, &txin) })
+                            }
+                            None => {
+                                ctx.skip();
+                                continue;
+                            }
+                        },
+                        _ => match ev.get("txout").and_then(mk_txout) {
+                            Some((txout, _)) => {
+                                let idx = n_outs + over + if what == "insert_output" { 1 } else { 0 };
+                                guard(|| if what == "insert_output" { t.insert_output(idx, &txout) } else { t.set_output(idx, &txout) })
+                            }
+                            None => {
+                                ctx.skip();
+                                continue;
+                            }
+                        },
+                    };
+                    ctx.probe(if r.is_ok() { "out_of_range_mutator_returned" } else { "out_of_range_mutator_panicked" });
+                    ctx.fault("refused-call");
                     is_mutator = true;
                 }
                 "burst" => {
